@@ -23,6 +23,7 @@ type SchemaOpts struct {
 	Wide      bool // allow wide bodies (>= 13 entries)
 	Huge      bool // allow populations around the candidate limit (95..130)
 	NoHooks   bool
+	HookPct   int // percent chance that an attribute has a completion hook (default 8)
 	Paths     []string // names of paths that may be referenced by path targets
 	NoAnyAttr bool
 	LitOnly   bool // only constraints expressible in both syntaxes (C19)
@@ -306,8 +307,16 @@ func (g G) Attr(depth int, o SchemaOpts) m.AttrM {
 		Mods:       g.modsList(),
 		Desc:       g.desc(),
 	}
-	if !o.NoHooks && g.Chance(8) {
-		a.Hooks = []string{Pick(g, []string{"h0", "h3", "h150", "herr", "hmissing"})}
+	hookPct := 8
+	if o.HookPct > 0 {
+		hookPct = o.HookPct
+	}
+	if !o.NoHooks && g.Chance(hookPct) {
+		a.Hooks = []string{Pick(g, []string{"h0", "h3", "h3", "h150", "herr", "hmissing"})}
+		if o.HookPct > 0 && g.Chance(60) {
+			// hooks only run for string-typed constraints
+			a.Cons = Pick(g, []m.ConsM{{K: "littype", Ty: m.TyOf(cty.String)}, {K: "any", Ty: m.TyOf(cty.String)}})
+		}
 	}
 	return a
 }
